@@ -169,7 +169,9 @@ def step? (g : Graph) (limit : Option Nat) (s : St) : Label → Option St
       | [] => none
     else none
   | .cCtxDone =>
-    if s.cAlive && s.cSched.isNone && s.cancelled then some { s with cAlive := false } else none
+    -- `case <-ctx.Done(): <-spawned; return nil`: the coordinator keeps its errgroup slot until the caller has left
+    -- the extremities loop (`close(spawned)`, i.e. `m = none`)
+    if s.cAlive && s.cSched.isNone && s.cancelled && s.m.isNone then some { s with cAlive := false } else none
 
 def init (g : Graph) : St :=
   { status := fun _ => .absent, workers := [], ch := [], received := [], cAlive := true, cSched := none,
